@@ -115,15 +115,20 @@ def load_findings():
     return json.load(open(FINDINGS)).get('findings', [])
 
 
+def _match(text, pattern):
+    """glob match where only * and ? are special (obligation names contain brackets)"""
+    return fnmatch.fnmatchcase(text or '', pattern.replace('[', '[[]'))
+
+
 def finding_for(findings, pid, r):
     for f in findings:
         if f.get('status', 'known') != 'known':
             continue
         if pid not in f.get('properties', [f.get('property')]):
             continue
-        if not fnmatch.fnmatchcase(r['name'], f['obligation']):
+        if not _match(r['name'], f['obligation']):
             continue
-        if 'case' in f and not fnmatch.fnmatchcase(r.get('case', ''), f['case']):
+        if 'case' in f and not _match(r.get('case', ''), f['case']):
             continue
         return f
     return None
